@@ -1,5 +1,8 @@
 (* C15, second sentence: "this holds in particular for everything the translate and simplify commands
-   print".  Statements only; proofs in Proofs/FolOutput.v (tau-star) and Proofs/FolOutputGamma.v (gamma, CLI).
+   print".  PARTIAL: proved for the five translations under explicit decidable premises on the INPUT,
+   FALSE for `simplify` (recorded findings, no theorem).  Statements only; proofs in Proofs/FolOutput.v
+   (tau-star), Proofs/FolOutputGamma.v (gamma), Proofs/FolOutputNatural.v (natural, mu),
+   Proofs/FolOutputCompletion.v (completion, CLI corollaries).
 
    The round-trip theorems of Properties/C15.v / C15text.v hold for well-formed trees OUTSIDE the recorded
    defect classes (F7b: an identifier with a keyword literal at its front in formula-start position;
@@ -12,22 +15,42 @@
      variable, so the only identifiers in formula-start position are the program's predicate names.
      C15_translate_output_reparses, C15_cli_translate_tau_star_feeds_back (no hypothesis on the program
      other than that the parser accepted it and `no_keyword_predicate`).
+   * natural, mu (translate --with natural | mu): unless a predicate name is in class F7b OR a body
+     comparison that natural prints with its own left-hand side first has a keyword-prefixed SYMBOLIC
+     CONSTANT as its left-hand side (`p :- notq = 1.` prints `notq = 1 -> p.`, read back as
+     `not q = 1 -> p.`; `p :- forallX = 1.` prints a text that is refused: finding F7e, audit 2 B4).
+     [no_keyword_front P] (Model/FolOutClass.v) is that condition; for natural it is EXACT
+     (C15_natural_output_F7b_iff).  C15_natural_output_reparses, C15_mu_output_reparses,
+     C15_cli_translate_natural_feeds_back, C15_cli_translate_mu_feeds_back.
    * gamma (translate --with gamma): gamma preserves well-formedness and does not create members of the
      classes (C15_gamma_preserves_classes); it keeps `<-`, so a C15-RIMP input stays C15-RIMP
      (C15_gamma_keeps_RIMP: the route `translate --with gamma` on `p <- (1 = 1).` of the audit).
      C15_gamma_output_reparses, C15_cli_translate_gamma_feeds_back.
-   * the simplification portfolios: NOT preserved.  The classic portfolio turns the class-free
-     `exists X (X = 1 and (p <- (X = 2))).` into the C15-RIMP member `exists X (1 = 1 and (p <- 1 = 2)).`
-     (C15_simplify_creates_RIMP, a defect reached through `simplify`), and before the repair F18 it
-     invented the variable name `_` (C15_F18_fixed is the regression example).  So for `simplify` only the
-     conditional statement C15_cli_simplify_feeds_back_partial is proved: IF the simplified theory is
-     well-formed and outside the classes THEN it is fed back unchanged; the two premises are checked on
-     every run by the op fol_output_reparses (props/C15out.json) on the real portfolios.
-   * natural, mu, completion: no theorem; sampled by the same op. *)
+   * completion (translate --with completion): preserves well-formedness and creates no member of the
+     classes (it builds `<->`, `or`, quantifiers and atoms p(V, V1, ..) over predicate symbols of the
+     input around sub-formulas of the input; a `<-` survives only inside a constraint, unchanged).
+     C15_completion_output_reparses, C15_cli_translate_completion_feeds_back,
+     C15_tau_star_completion_output_reparses.
+   * the simplification portfolios: the sentence is FALSE on the real code and there is NO theorem.
+     Every portfolio creates members of the classes from class-free input:
+       - intuitionistic / ht / classic: evaluate_comparisons splits the chain `1 = notq != 2.` into
+         `1 = notq and notq != 2.`, read back as `1 = notq and not q != 2.`  (C15_simplify_creates_F7b_split);
+       - classic: substitute_defined_variables turns `exists X (X = notq and X != 1).` into
+         `exists X (notq = notq and notq != 1).`  (C15_simplify_creates_F7b_subst) and
+         `exists X (X = 1 and (p <- (X = 2))).` into the C15-RIMP member
+         `exists X (1 = 1 and (p <- 1 = 2)).`  (C15_simplify_creates_RIMP);
+       - tau* output piped into simplify: `p :- notq != 1.` (no keyword predicate) ends as
+         `notq != 1 -> p.`  (C15_tau_star_simplify_creates_F7b);
+     before the repair F18 the classic portfolio also invented the variable name `_` (C15_F18_fixed is
+     the regression example).  C15_cli_simplify_text_round_trip_restated is NOT a theorem about the
+     simplifier: it is C15_text_theory restated for whatever `simplify` prints, with well-formedness and
+     class-freedom of the OUTPUT as premises (what the op fol_output_reparses of props/C15out.json checks
+     on the real portfolios at every run). *)
 From Coq Require Import List Ascii String ZArith Bool.
 From Anthem Require Import Syntax.Fol Syntax.Asp Model.AspParse Model.TauStar Model.Gamma
-  Model.FolLex Model.FolParse Model.FolPrint Model.FolClass Model.Cli Model.CliOut
-  Proofs.FolOutput Proofs.FolOutputGamma.
+  Model.Natural Model.CliMu Model.Completion
+  Model.FolLex Model.FolParse Model.FolPrint Model.FolClass Model.Cli Model.CliOut Model.FolOutClass
+  Proofs.FolOutput Proofs.FolOutputGamma Proofs.FolOutputNatural Proofs.FolOutputCompletion.
 Import ListNotations.
 Open Scope string_scope.
 Open Scope list_scope.
@@ -72,6 +95,165 @@ Example C15_translate_F7b_needed :
     match tau_star P with
     | Some G => show_theory G = ("q -> notp." ++ String (ascii_of_nat 10) "")%string /\
                 known_class_theory G = Some "F7b" /\ parse_theory_str (show_theory G) <> PR_ok G
+    | None => False
+    end
+  | _ => False
+  end.
+Proof. vm_compute. repeat split; discriminate. Qed.
+
+(* ---------------------------------------------------------------- natural, mu *)
+(* [no_keyword_front P] (Model/FolOutClass.v): no predicate name of P is keyword-prefixed
+   (= no_keyword_predicate) and no body comparison `c rel t` of P -- other than the interval membership
+   `c = t1..t2`, which natural prints as `t1 <= c <= t2` -- has a keyword-prefixed symbolic constant c
+   as its left-hand side. *)
+Theorem C15_natural_output_reparses :
+  forall (P : program) (G : theory),
+  fol_names_ok P = true -> no_keyword_front P = true -> Natural.natural P = NOk G ->
+  wf_theory G = true /\ known_class_theory G = None /\
+  parse_theory_str (show_theory G) = PR_ok G.
+Proof. exact natural_output_reparses. Qed.
+Print Assumptions C15_natural_output_reparses.
+
+(* the premise is exact: outside it the output of natural IS in a recorded class (F7b) *)
+Theorem C15_natural_output_F7b_iff :
+  forall (P : program) (G : theory),
+  fol_names_ok P = true -> Natural.natural P = NOk G ->
+  (known_class_theory G = None <-> no_keyword_front P = true).
+Proof. exact natural_output_F7b_iff. Qed.
+Print Assumptions C15_natural_output_F7b_iff.
+
+(* mu = natural_rule where it succeeds, tau_star_rule elsewhere *)
+Theorem C15_mu_output_reparses :
+  forall (P : program) (G : theory),
+  fol_names_ok P = true -> no_keyword_front P = true -> CliMu.mu P = NOk G ->
+  wf_theory G = true /\ known_class_theory G = None /\
+  parse_theory_str (show_theory G) = PR_ok G.
+Proof. exact mu_output_reparses. Qed.
+Print Assumptions C15_mu_output_reparses.
+
+(* end to end on the CLI model *)
+Theorem C15_cli_translate_natural_feeds_back :
+  forall (s out : string),
+  run_cli (Translate Cli.Natural) s = Stdout out ->
+  exists (P : program) (G : theory),
+    parse_program_text s = POk P /\ Natural.natural P = NOk G /\ out = show_theory G /\
+    (no_keyword_front P = true ->
+     wf_theory G = true /\ known_class_theory G = None /\
+     parse_theory_str out = PR_ok G /\ run_cli (Parse Theory) out = Stdout out).
+Proof. exact cli_translate_natural_feeds_back. Qed.
+Print Assumptions C15_cli_translate_natural_feeds_back.
+
+Theorem C15_cli_translate_mu_feeds_back :
+  forall (s out : string),
+  run_cli (Translate Mu) s = Stdout out ->
+  exists (P : program) (G : theory),
+    parse_program_text s = POk P /\ CliMu.mu P = NOk G /\ out = show_theory G /\
+    (no_keyword_front P = true ->
+     wf_theory G = true /\ known_class_theory G = None /\
+     parse_theory_str out = PR_ok G /\ run_cli (Parse Theory) out = Stdout out).
+Proof. exact cli_translate_mu_feeds_back. Qed.
+Print Assumptions C15_cli_translate_mu_feeds_back.
+
+(* the exclusion is necessary and is NOT the one of tau*: `p :- notq = 1.` has no keyword predicate
+   (finding F7e; audit 2, B4: /work/audit2/core/n2) *)
+Example C15_natural_F7e_needed :
+  match parse_program_text "p :- notq = 1." with
+  | POk P =>
+    no_keyword_predicate P = true /\ no_keyword_front P = false /\
+    match Natural.natural P, CliMu.mu P, tau_star P with
+    | NOk G, NOk M, Some T =>
+      show_theory G = ("notq = 1 -> p." ++ String (ascii_of_nat 10) "")%string /\ M = G /\
+      known_class_theory G = Some "F7b" /\
+      parse_theory_str (show_theory G) <> PR_ok G /\
+      run_cli (Parse Theory) (show_theory G) = Stdout ("not q = 1 -> p." ++ String (ascii_of_nat 10) "")%string /\
+      (* tau* of the same program is fed back *)
+      parse_theory_str (show_theory T) = PR_ok T
+    | _, _, _ => False
+    end
+  | _ => False
+  end.
+Proof. vm_compute. repeat split; discriminate. Qed.
+
+(* `forallX` is a symbolic constant of the input language; the printed text is refused *)
+Example C15_natural_F7e_refused :
+  run_cli (Translate Cli.Natural) "p :- forallX = 1." = Stdout ("forallX = 1 -> p." ++ String (ascii_of_nat 10) "")%string /\
+  run_cli (Translate Mu) "p :- forallX = 1." = Stdout ("forallX = 1 -> p." ++ String (ascii_of_nat 10) "")%string /\
+  run_cli (Parse Theory) ("forallX = 1 -> p." ++ String (ascii_of_nat 10) "")%string = Error.
+Proof. vm_compute. repeat split. Qed.
+
+(* non-vacuity and sharpness of the premise: keyword-prefixed constants everywhere natural does NOT
+   print them first (right-hand side, interval membership, arguments of head and body atoms) *)
+Example C15_natural_premise_sharp :
+  match parse_program_text "p(notq, X) :- q(forallX, X), 1 = notq, notq = 1..2, existsa != X, not r(nota)." with
+  | POk P =>
+    no_keyword_front P = true /\
+    match Natural.natural P with
+    | NOk G =>
+      show_theory G = ("forall X (q(forallX, X) and 1 = notq and 1 <= notq <= 2 and existsa != X and not r(nota) -> p(notq, X))."
+                       ++ String (ascii_of_nat 10) "")%string /\
+      parse_theory_str (show_theory G) = PR_ok G
+    | _ => False
+    end
+  | _ => False
+  end.
+Proof. vm_compute. repeat split. Qed.
+
+(* ---------------------------------------------------------------- completion *)
+Theorem C15_completion_output_reparses :
+  forall (t : theory) (inputs : list pred) (D : theory),
+  wf_theory t = true -> known_class_theory t = None -> Completion.completion t inputs = Some D ->
+  wf_theory D = true /\ known_class_theory D = None /\
+  parse_theory_str (show_theory D) = PR_ok D.
+Proof. exact completion_output_reparses. Qed.
+Print Assumptions C15_completion_output_reparses.
+
+Theorem C15_cli_translate_completion_feeds_back :
+  forall (s out : string),
+  run_cli (Translate Cli.Completion) s = Stdout out ->
+  exists t D : theory,
+    parse_theory_str s = PR_ok t /\ Completion.completion t [] = Some D /\ out = show_theory D /\
+    (known_class_theory t = None ->
+     wf_theory D = true /\ known_class_theory D = None /\
+     parse_theory_str out = PR_ok D /\ run_cli (Parse Theory) out = Stdout out).
+Proof. exact cli_translate_completion_feeds_back. Qed.
+Print Assumptions C15_cli_translate_completion_feeds_back.
+
+(* tau* followed by completion (the pipeline of `verify`) *)
+Theorem C15_tau_star_completion_output_reparses :
+  forall (P : program) (G D : theory),
+  fol_names_ok P = true -> no_keyword_predicate P = true -> tau_star P = Some G ->
+  Completion.completion G [] = Some D ->
+  parse_theory_str (show_theory D) = PR_ok D.
+Proof. exact tau_star_completion_output_reparses. Qed.
+Print Assumptions C15_tau_star_completion_output_reparses.
+
+(* non-vacuity: a completable theory with a constraint written with `<-`, an implicit definition (r) and
+   two rules for p *)
+Example C15_completion_example :
+  match parse_theory_str "forall X (q(X) -> p(X)). forall X (p(X) <- r(X) and X > 1). #false <- q(1)." with
+  | PR_ok t =>
+    known_class_theory t = None /\
+    match Completion.completion t [] with
+    | Some D =>
+      show_theory D = ("#false <- q(1)." ++ String (ascii_of_nat 10)
+                       ("forall X (p(X) <-> q(X) or r(X) and X > 1)." ++ String (ascii_of_nat 10)
+                       ("forall V1 (q(V1) <-> #false)." ++ String (ascii_of_nat 10)
+                       ("forall V1 (r(V1) <-> #false)." ++ String (ascii_of_nat 10) ""))))%string /\
+      parse_theory_str (show_theory D) = PR_ok D
+    | None => False
+    end
+  | _ => False
+  end.
+Proof. vm_compute. repeat split. Qed.
+
+(* completion keeps a constraint as it is, C15-RIMP members included: the class exclusion on the input
+   is necessary *)
+Example C15_completion_keeps_RIMP :
+  match parse_theory_str "(p <- (1 = 1)) -> #false." with
+  | PR_ok t =>
+    known_class_theory t = Some "C15-RIMP" /\
+    match Completion.completion t [] with
+    | Some D => known_class_theory D = Some "C15-RIMP" /\ parse_theory_str (show_theory D) <> PR_ok D
     | None => False
     end
   | _ => False
@@ -131,18 +313,76 @@ Example C15_gamma_keeps_RIMP :
 Proof. vm_compute. repeat split; discriminate. Qed.
 
 (* ---------------------------------------------------------------- simplify *)
-Theorem C15_cli_simplify_feeds_back_partial :
+(* NO theorem: for `simplify` the sentence is false on the real code (Examples below; recorded findings
+   C15-RIMP-created, C15-RIMP-simplify, C15-F7b-created-split, C15-F7b-created-subst).
+   The statement below is NOT about the simplifier: it is C15_text_theory restated for whatever theory g
+   the command prints; `wf_theory g` and `known_class_theory g = None` are premises about the OUTPUT. *)
+Theorem C15_cli_simplify_text_round_trip_restated :
   forall (pf : simplification_portfolio) (st : simplification_strategy) (s out : string),
   run_cli (Simplify pf st) s = Stdout out ->
   exists t g : theory,
     parse_theory_str s = PR_ok t /\ simplify_theory pf st t = Got g /\ out = show_theory g /\
     (wf_theory g = true -> known_class_theory g = None ->
      parse_theory_str out = PR_ok g /\ run_cli (Parse Theory) out = Stdout out).
-Proof. exact cli_simplify_feeds_back_partial. Qed.
-Print Assumptions C15_cli_simplify_feeds_back_partial.
+Proof. exact cli_simplify_text_round_trip_restated. Qed.
+Print Assumptions C15_cli_simplify_text_round_trip_restated.
 
-(* the premises cannot be dropped: the classic portfolio creates a member of C15-RIMP from a
-   class-free theory (substitute_defined_variables puts the numeral 1 behind `<-`) *)
+(* every portfolio creates a member of F7b from a class-free theory: evaluate_comparisons (first rewrite
+   of INTUITIONISTIC, hence of all three portfolios) splits a comparison chain, which moves the middle
+   term into formula-start position *)
+Example C15_simplify_creates_F7b_split :
+  match parse_theory_str "1 = notq != 2." with
+  | PR_ok t =>
+    known_class_theory t = None /\ parse_theory_str (show_theory t) = PR_ok t /\
+    match simplify_theory Intuitionistic Shallow t, simplify_theory Ht Recursive t, simplify_theory Classic Fixpoint_ t with
+    | Got g, Got g2, Got g3 =>
+      show_theory g = ("1 = notq and notq != 2." ++ String (ascii_of_nat 10) "")%string /\ g2 = g /\ g3 = g /\
+      wf_theory g = true /\ known_class_theory g = Some "F7b" /\
+      run_cli (Parse Theory) (show_theory g) = Stdout ("1 = notq and not q != 2." ++ String (ascii_of_nat 10) "")%string
+    | _, _, _ => False
+    end
+  | _ => False
+  end.
+Proof. vm_compute. repeat split. Qed.
+
+(* the classic portfolio: substitute_defined_variables puts the symbolic constant in front *)
+Example C15_simplify_creates_F7b_subst :
+  match parse_theory_str "exists X (X = notq and X != 1)." with
+  | PR_ok t =>
+    known_class_theory t = None /\
+    match simplify_theory Classic Shallow t with
+    | Got g =>
+      show_theory g = ("exists X (notq = notq and notq != 1)." ++ String (ascii_of_nat 10) "")%string /\
+      wf_theory g = true /\ known_class_theory g = Some "F7b" /\
+      parse_theory_str (show_theory g) <> PR_ok g
+    | Stop _ => False
+    end
+  | _ => False
+  end.
+Proof. vm_compute. repeat split; discriminate. Qed.
+
+(* tau* output (proved class-free: the program has no keyword predicate) piped into simplify *)
+Example C15_tau_star_simplify_creates_F7b :
+  match parse_program_text "p :- notq != 1." with
+  | POk P =>
+    no_keyword_predicate P = true /\
+    match tau_star P with
+    | Some T =>
+      known_class_theory T = None /\
+      match simplify_theory Classic Fixpoint_ T with
+      | Got g =>
+        show_theory g = ("notq != 1 -> p." ++ String (ascii_of_nat 10) "")%string /\
+        known_class_theory g = Some "F7b" /\ parse_theory_str (show_theory g) <> PR_ok g
+      | Stop _ => False
+      end
+    | None => False
+    end
+  | _ => False
+  end.
+Proof. vm_compute. repeat split; discriminate. Qed.
+
+(* the classic portfolio creates a member of C15-RIMP from a class-free theory
+   (substitute_defined_variables puts the numeral 1 behind `<-`) *)
 Example C15_simplify_creates_RIMP :
   match parse_theory_str "exists X (X = 1 and (p <- (X = 2)))." with
   | PR_ok t =>
